@@ -9,6 +9,7 @@ Errors_Trace: event streams of real executions judged by the same monitor.
 import json
 import os
 import random
+import re
 
 import vlib
 
@@ -183,10 +184,10 @@ def make_case(rng, cid, plan, layout):
     if layout == "single":
         runs = [{"scripts": [sa]}]
         tabs = {"a": tab}
-    elif layout == "then-clean":
+    elif layout in ("then-clean", "cli-then-clean"):
         runs = [{"scripts": [sa]}, {"scripts": [sb]}]
         tabs = {"a": tab, "b": ctab}
-    elif layout == "clean-then":
+    elif layout in ("clean-then", "cli-clean-then"):
         runs = [{"scripts": [sb]}, {"scripts": [sa]}]
         tabs = {"a": tab, "b": ctab}
     else:
@@ -194,6 +195,47 @@ def make_case(rng, cid, plan, layout):
         tabs = {"a": tab, "b": ctab}
     return {"id": cid, "runs": runs, "tab": tabs, "conf": {"max_runtime_ms": 4000, "slice": 3 if layout == "beside-clean" else 0},
             "features": sorted(feats) + ["layout-" + layout], "text": text}
+
+
+_CLI_DIAG = re.compile(r"^\[(INF|WRN|ERR|FAT)\] \[L(\d+)\|C(\d+)\|([^\]]*)\]\t(.*)$")
+
+
+def cli_events(case):
+    """the same runs through the command line tool's prompt loop (one VM, one input after the other): its printed
+    output is projected onto the driver's event vocabulary (RB / D / R); no judgement here"""
+    import subprocess
+    names = [r["scripts"][0]["name"] for r in case["runs"]]
+    texts = [r["scripts"][0]["text"].strip("\n") for r in case["runs"]]
+    if any("\n\n" in t for t in texts):
+        raise vlib.MachineryError("a script for the prompt loop contains an empty line")
+    feed = "".join(t + "\n\n" for t in texts) + "exit__;\n\n"
+    try:
+        p = subprocess.run([vlib.sqfvm_cli("rel"), "--suppress-welcome", "--no-execute-print", "--no-load-executable-dir", "--max-runtime", "4000"],
+                           input=feed, stdout=subprocess.PIPE, stderr=subprocess.STDOUT, text=True, timeout=60, errors="replace")
+    except subprocess.TimeoutExpired:
+        return [{"e": "Crash", "id": case["id"], "why": "timeout (prompt loop)"}]
+    evs, run = [], -1
+    lvl = {"FAT": 0, "ERR": 1, "WRN": 2, "INF": 3}
+    for line in p.stdout.splitlines():
+        if re.match(r"^1:\t", line):
+            run += 1
+            if run < len(names):
+                evs.append({"e": "RB", "id": case["id"]})
+            continue
+        if run < 0 or run >= len(names):
+            continue
+        m = _CLI_DIAG.match(line)
+        if m:
+            msg = m.group(5)
+            code = 60019 if msg.startswith("[DIAG_LOG]") else 60001 if msg.startswith("Stacktrace") else 0
+            evs.append({"e": "D", "id": case["id"], "file": names[run] + ".sqf", "L": int(m.group(2)), "code": code, "lvl": lvl[m.group(1)], "txt": msg})
+        elif line.startswith("Runtime Error occured"):
+            evs.append({"e": "R", "id": case["id"], "res": "runtime_error"})
+        elif line.startswith("Ran to completion"):
+            evs.append({"e": "R", "id": case["id"], "res": "ok"})
+    if p.returncode < 0:
+        evs.append({"e": "Crash", "id": case["id"], "why": "signal %d (prompt loop)" % -p.returncode})
+    return evs
 
 
 def to_events(case, evs):
@@ -250,7 +292,7 @@ def run(rep, tier, seed, replay):
             rep.design_runs.append({"what": "deviation ErrorNoticedLate/flag-survives refuted (non-vacuity), together=%s" % t, "generated": r2.generated, "distinct": r2.distinct})
         cases = []
         for n, plan in systematic_plans():
-            for layout in ("single", "then-clean", "beside-clean", "clean-then"):
+            for layout in ("single", "then-clean", "beside-clean", "clean-then", "cli-then-clean", "cli-clean-then"):
                 cases.append(make_case(rng, "sys-%s-%s" % (n, layout), plan, layout))
         nrand = 400 if tier == "quick" else 8000
         for i in range(nrand):
@@ -259,8 +301,14 @@ def run(rep, tier, seed, replay):
     rep.rule = ("an erroring statement of each kind (raised by the executing instruction / inside an iteration behaviour) at each structural position "
                 "(straight-line, last statement, inside each loop/call construct, inside handled blocks, inside handlers, nested handlers) x run layout "
                 "(alone, followed by a clean run, beside a clean script, after a clean run) + seeded random nestings; distinct by script text+layout; non-trivial = contains an erroring statement")
-    events = vlib.run_driver("run", [{"id": c["id"], "runs": c["runs"], "conf": c["conf"]} for c in cases], wdir, kind="rel", timeout_s=20)
+    def is_cli(c):
+        return c["features"][-1].startswith("layout-cli-")
+    events = vlib.run_driver("run", [{"id": c["id"], "runs": c["runs"], "conf": c["conf"]} for c in cases if not is_cli(c)], wdir, kind="rel", timeout_s=20)
     by = vlib.events_by_case(events)
+    import concurrent.futures
+    with concurrent.futures.ThreadPoolExecutor(max_workers=8) as ex:
+        for c, evs in zip([c for c in cases if is_cli(c)], ex.map(cli_events, [c for c in cases if is_cli(c)])):
+            by[c["id"]] = evs
     execs = []
     for c in cases:
         execs.append((c["id"], to_events(c, by.get(c["id"], []))))
@@ -290,7 +338,7 @@ def run(rep, tier, seed, replay):
     for key, bs in sorted(groups.items()):
         b = min(bs, key=lambda x: (len(cmap[x["id"]]["runs"]), len(cmap[x["id"]]["text"])))
         case = cmap[b["id"]]
-        ev2 = vlib.run_driver("run", [{"id": case["id"], "runs": case["runs"], "conf": case["conf"]}], wdir, kind="rel", timeout_s=20, jobs=1, tag="confirm")
+        ev2 = cli_events(case) if is_cli(case) else vlib.run_driver("run", [{"id": case["id"], "runs": case["runs"], "conf": case["conf"]}], wdir, kind="rel", timeout_s=20, jobs=1, tag="confirm")
         ex2 = [(case["id"], to_events(case, ev2))]
         bad2, _, _ = vlib.validate_traces("Errors_Trace", "Errors_Trace.cfg", ex2, wdir, "c04confirm", chunks=1,
                                           reset_fields={case["id"]: {"tab": case["tab"]}})
